@@ -83,7 +83,7 @@ def _child(spec, cd: G.CaseDir):
     # stored results of every job directory, read by the same process that ran them
     import cloudpickle as cp
 
-    jobs = {}
+    jobs, errs = {}, {}
     for name, dn in G.job_dirs(cd.cache).items():
         rf = cd.cache / dn / "_result.pklz"
         flag = None
@@ -94,7 +94,15 @@ def _child(spec, cd: G.CaseDir):
             except Exception:
                 flag = "unreadable"
         jobs[name] = flag
+        ef = cd.cache / dn / "_error.pklz"
+        if flag is True and ef.exists():
+            try:
+                with open(ef, "rb") as fp:
+                    errs.setdefault(name, "".join(cp.load(fp)["error message"])[-600:])
+            except Exception:
+                pass
     res["jobs"] = jobs
+    res["errors"] = errs
     return res
 
 
@@ -116,9 +124,10 @@ def expected_jobs(kind) -> dict:
 
 
 def shared_audit_model(kind, flag, starts, ends, res):
-    """Defect model: under the debug worker a workflow job and its node jobs use ONE Audit object
-    (Job.__init__ takes submitter.audit), so each node's start_audit overwrites the activity id
-    (and, with RESOURCE, the resource monitor) of the enclosing workflow job.
+    """Defect model: a workflow job and its node jobs use ONE Audit object (Job.__init__ takes
+    submitter.audit).  Under the debug worker each node's start_audit overwrites the activity id
+    (and, with RESOURCE, the resource monitor) of the enclosing workflow job; under cf the node job
+    that is pickled for the pool carries the workflow's running ResourceMonitor.
     PROV: the workflow's end record carries the id of the node started last -> exactly the first
     started activity has no end and exactly the last started one has two.
     ALL:  the first node job is pickled (save(job=...) in _populate_filesystem) together with the
@@ -126,14 +135,20 @@ def shared_audit_model(kind, flag, starts, ends, res):
           log file -> PicklingError in result.save (or, if pickling got through, the workflow's
           finalize_audit would find resource_monitor == None -> AttributeError)."""
     k = G.KINDS[kind]
-    if not (k["task"].startswith("FWf") and k["worker"] == "debug"):
+    if not k["task"].startswith("FWf"):
         return False
     if flag == "ALL":
         r = res.get("raised") or {}
         if r.get("type") == "PicklingError" and r.get("sig", "").endswith("result.py:save"):
             return "not opened for reading" in (r.get("msg") or "")
-        return (r.get("type") == "AttributeError" and "finalize_audit" in (r.get("sig") or "")
-                and "stop" in (r.get("msg") or ""))
+        if r.get("type") == "AttributeError" and "finalize_audit" in (r.get("sig") or ""):
+            return "stop" in (r.get("msg") or "")
+        # cf: the submission returns an errored workflow result; cp.dumps(job) in the worker failed
+        return (not r and (res.get("jobs") or {}).get("main") is True and not res.get("bodies_ran")
+                and "Cannot pickle files that are not opened for reading"
+                in ((res.get("errors") or {}).get("main") or ""))
+    if k["worker"] != "debug":
+        return False
     by_time = sorted(starts, key=lambda m: m["startedAtTime"])
     if len(by_time) < 2:
         return False
@@ -160,6 +175,7 @@ def check_case(case):
         if r["status"] != "ok":
             raise HarnessError(f"C36 child ended {r['status']}: {(d / 'run.log').read_text()[-1500:]}")
         res = r["result"]
+        res["bodies_ran"] = bool(cd.body_counts())
         starts, ends, descr, other, bad = parse_messages(cd.msgs)
         exp = expected_jobs(kind)
         bodies = cd.body_counts()
@@ -168,6 +184,7 @@ def check_case(case):
         recs = []
         detail = dict(
             raised=res.get("raised"), stored_results=res.get("jobs"), bodies=bodies,
+            error_files=res.get("errors"),
             starts=[[m["@id"][-6:], m["startedAtTime"]] for m in starts],
             ends=[[m["@id"][-6:], m["endedAtTime"], m["errored"]] for m in ends],
             labels=[[m.get("@id", "")[-6:], m.get("Label")] for m in descr],
@@ -180,7 +197,7 @@ def check_case(case):
         executed = dict(res.get("jobs") or {})
         model = shared_audit_model(kind, flag, starts, ends, res)
         if model:
-            rec("shared-audit-object:workflow-and-nodes-under-debug-worker",
+            rec("shared-audit-object:workflow-and-node-jobs",
                 dict(flag=flag, raised=res.get("raised"), n_start=len(starts), n_end=len(ends)),
                 "one start and one end record per executed job with the same @id")
             return recs
@@ -260,4 +277,4 @@ def run(sh):
                     raise_unattributed=True)
         sh.count(f"outcome:{LAST.get('outcome')}")
 
-    sh.given(strat, body, sh.budget(64, 1600), tag="gen")
+    sh.given(strat, body, sh.budget(128, 1600), tag="gen")
